@@ -134,7 +134,30 @@ func taxesOut(t jmap) (V, V) {
 }
 
 // projectDoc maps a serialised calculated document onto e_result's layout.
+// resolvedCombos lists, for every line, document discount and document charge (in that order), the
+// percentage and surcharge the library put on each tax combo (the rate-key resolution is C12's subject;
+// the calculation properties take it as given).
+func resolvedCombos(doc jmap) V {
+	rows := []V{}
+	for _, k := range []string{"lines", "discounts", "charges"} {
+		for _, r := range jList(doc, k) {
+			combos := []V{}
+			for _, c := range jList(r.(jmap), "taxes") {
+				cm := c.(jmap)
+				combos = append(combos, VL(jPct(cm, "percent"), jPct(cm, "surcharge")))
+			}
+			rows = append(rows, V{Kind: 'l', L: combos})
+		}
+	}
+	return V{Kind: 'l', L: rows}
+}
+
 func projectDoc(doc jmap) []V {
+	out := projectDocCore(doc)
+	return append(out, resolvedCombos(doc))
+}
+
+func projectDocCore(doc jmap) []V {
 	lines := []V{}
 	for _, l := range jList(doc, "lines") {
 		lines = append(lines, lineOut(l.(jmap)))
